@@ -508,6 +508,85 @@ def run(ctx, only_entry=False):
            "every operand child of an instruction rule is handed to a sub-parser and stored in the AST", "parser/implementation/mod.rs",
            "; ".join(dropped[:3]) or "%d (rule, alternative) cases with sub-parsed operands" % nop_total[0],
            "A4 of the consumers: the tagged stand-ins of the sub-parsers found in the built value")
+    # ---- clause 4c: the operand forms.  The real operand parsers (sub-parsers included, nothing replaced) are interpreted on
+    # the PEG parse tree of concrete operand texts - every register in each of the four forms, numerals and names bare and
+    # in parentheses - and must build the documented operand: Rn, (Rn) = memory at Rn, (Rn+) = post-increment,
+    # ((Rn+)) = double dereference with post-increment, n / (n), name / (name) --------------------------------------------
+    AST = "L::parser::ast::"
+
+    def vix(ty, name):
+        vs = [v["n"] for v in p.need_type(AST + ty)["variants"]]
+        if name not in vs:
+            raise AnchorMissing("%s::%s" % (ty, name))
+        return vs.index(name)
+
+    def ref_operand(kind, text):
+        """the documented reading of an operand text, as a value of the AST type `kind`"""
+        def reg(t):
+            return En({vix("Register", tab["registers"][t.lower()]): ()})
+
+        def const(t):
+            tl = t.lower()
+            if tl.startswith("0x"):
+                return En({vix("Constant", "Constant"): (int(tl[2:], 16),)})
+            if tl.startswith("0b"):
+                return En({vix("Constant", "Constant"): (int(tl[2:], 2),)})
+            if tl.isdigit():
+                return En({vix("Constant", "Constant"): (int(tl, 10),)})
+            return En({vix("Constant", "Label"): (Str(t),)})
+        if text.startswith("((") and text.endswith("+))"):
+            return En({vix(kind, "RegisterDdi"): (Agg((reg(text[2:-3]),)),)})
+        if text.startswith("(") and text.endswith("+)"):
+            return En({vix(kind, "RegisterDi"): (Agg((reg(text[1:-2]),)),)})
+        if text.startswith("(") and text.endswith(")"):
+            inner = text[1:-1]
+            if inner.lower() in tab["registers"]:
+                m_ = En({vix("MemAddress", "Register"): (reg(inner),)})
+            else:
+                m_ = En({vix("MemAddress", "Constant"): (const(inner),)})
+            return m_ if kind == "MemAddress" else En({vix(kind, "MemAddress"): (m_,)})
+        if text.lower() in tab["registers"]:
+            return En({vix(kind, "Register"): (reg(text),)})
+        return En({vix(kind, "Constant"): (const(text),)})
+
+    def to_pairs(node, text, idx=None):
+        return PairV(node.rule, idx, tuple(to_pairs(c, text, i) for i, c in enumerate(node.children)), Str(text[node.start:node.end]))
+
+    reg_texts = sorted({t_ for t_ in list(tab["registers"]) + [x.upper() for x in tab["registers"]] if g.full_match("register", t_)})
+    atoms = ["0", "7", "255", "0x2A", "0XfF"[0:1] + "xfF", "0b101", "0b00000011", "loop", "Foo_1", "_x", "table"]
+    op_texts = []
+    for r_ in reg_texts:
+        op_texts += [r_, "(%s)" % r_, "(%s+)" % r_, "((%s+))" % r_]
+    for a_ in atoms:
+        op_texts += [a_, "(%s)" % a_]
+    bad_ops = []
+    nops = 0
+    for kind, rule_, fn_ in (("Source", "source", "parse_source"), ("Destination", "destination", "parse_destination"),
+                             ("MemAddress", "memory", "parse_memory")):
+        body_ = p.need_body(PI + fn_)
+        for t_ in op_texts:
+            m_ = g.match_rule(rule_, t_)
+            if m_ is None or m_[0] != len(t_) or not m_[1]:
+                continue
+            Io = absint.Interp(p)
+            Io.unroll = 12
+            pm.install(Io)
+            try:
+                got = Io.run_body(body_, [to_pairs(m_[1][0], t_)], absint.State(), 0)
+            except absint.AnalysisLimit as e_:
+                got = "not analysable: %s" % e_
+            evs_ = [e_ for e_ in Io.events if e_.kind in ("unknown_extern", "havoc", "wild_write", "unknown_call_value") and not e_.in_log]
+            want = ref_operand(kind, t_)
+            nops += 1
+            if got != want or evs_:
+                bad_ops.append("%s %r is read as %s, documented %s %s" % (rule_, t_, D.short(got) if not isinstance(got, str) else got,
+                                                                        D.short(want), [repr(e_)[:80] for e_ in evs_[:1]]))
+    chk.ob("ast/operand-forms", not bad_ops,
+           "every operand text is stored as the operand form that was written: Rn, (Rn), (Rn+), ((Rn+)), a numeral or name, "
+           "bare or in parentheses, with the register and value written", "parser/implementation/mod.rs parse_source / "
+           "parse_destination / parse_memory", "; ".join(bad_ops[:3]) or "%d (operand rule, text) cases" % nops,
+           "A4 of the real operand parsers on the PEG parse trees of concrete operand texts")
+    chk.floor("operand form cases", nops, 90)
     # the dispatcher maps each instruction alternative to its own handler
     rs = results.get((PI + "parse_instruction", "instruction"), [])
     chk.floor("instruction alternatives dispatched", len(rs), 55)
